@@ -389,7 +389,7 @@ func Extract(files []protoreflect.FileDescriptor) *Contract {
 				for j := 0; j < md.Fields().Len(); j++ {
 					f := md.Fields().Get(j)
 					cf := CField{Name: string(f.Name()), JSON: f.JSONName(), Num: int32(f.Number()), Type: kindNames[f.Kind()],
-						Repeated: f.Cardinality() == protoreflect.Repeated, Optional: f.HasOptionalKeyword()}
+						Repeated: f.Cardinality() == protoreflect.Repeated, Optional: f.HasOptionalKeyword() && f.HasPresence()} // optional = the keyword *and* the presence it stands for
 					if oo := f.ContainingOneof(); oo != nil && !oo.IsSynthetic() {
 						cf.Oneof = string(oo.Name())
 					}
